@@ -236,6 +236,19 @@ Section Envelope.
         if dberr s'' then (ODbErr, s'') else (OOk res, s'')
     end.
 
+  (** A sequence of transactions on one overlay (the transaction loop of a block): the next
+      transaction sees the state left by the previous one; the first rejected transaction ends the
+      sequence (the node rejects the block). *)
+  Fixpoint apply_all (e : env) (s : state) (ms : list msg) : state :=
+    match ms with
+    | [] => s
+    | m :: rest =>
+        match handle_eip155 e s m with
+        | (OOk _, s') => apply_all e s' rest
+        | (_, s') => s'
+        end
+    end.
+
   (** Sum of the ONG balances over a finite set of accounts. *)
   Definition total (U : list addr) (s : state) : N := fold_right (fun a acc => bal s a + acc) 0 U.
 End Envelope.
@@ -251,4 +264,4 @@ Arguments mkBought {R}. Arguments b_state {R}. Arguments b_gas {R}. Arguments b_
 Arguments mkRan {R}. Arguments x_state {R}. Arguments x_gas {R}. Arguments x_refund {R}. Arguments x_err {R}.
 Arguments PFail {R}. Arguments PRun {R}. Arguments plan_of {R}. Arguments invocation {R}.
 Arguments buy_gas {R}. Arguments pre_check {R}. Arguments run_phase {R}. Arguments finish {R}.
-Arguments after_run {R}. Arguments transition_db {R}. Arguments handle_eip155 {R}.
+Arguments after_run {R}. Arguments transition_db {R}. Arguments handle_eip155 {R}. Arguments apply_all {R}.
